@@ -8,8 +8,12 @@ package lib
 //
 //	D<i> first / repeated delivery of registration i     O<i> re-delivery from another registrant address
 //	S<i> re-delivery from another registration source    M<i> MarkActive (a connection used the registration)
+//	G<i> a connection handler matches a connection to registration i and keeps the object (GetRegistrations)
+//	H<i> that handler calls MarkActive on the object it holds, whatever has happened to the registration since
 //	t<d> time passes (every timeout record is back-dated by d; nothing sleeps)
 //	L    the real sweep (RemoveOldRegistrations), then a lookup of every registration delivered so far
+//
+// Every sequence ends with the station's shutdown order: HandleRegUpdates(ctx) running, cancel(), wg.Wait(), Cleanup().
 //
 // and records (a) every message that was actually published, at the virtual instant it was published, and (b) at
 // every lookup whether the station still serves the registration for a connection.  The orchestrator feeds (a) to
@@ -17,6 +21,7 @@ package lib
 
 import (
 	"bufio"
+	"context"
 	"crypto/sha256"
 	"encoding/hex"
 	"encoding/json"
@@ -26,6 +31,7 @@ import (
 	"os"
 	"path/filepath"
 	"strings"
+	"sync"
 	"testing"
 	"time"
 
@@ -40,8 +46,11 @@ type c10LReg struct {
 	twin      *DecoyRegistration // built by parseRegMessage, never ingested: the key for looking the registration up
 	last      *DecoyRegistration // the object the station tracked last
 	delivered bool
-	state     string // state announced last: unused | used
-	tAnn      uint64 // virtual instant of that announcement
+	held      *DecoyRegistration // the object a connection handler obtained by a lookup (op G) and still holds
+	annUntr   bool               // something was published for it while the station did not track it
+	staleMark bool               // MarkActive on a held object that was no longer the tracked one published something
+	state     string             // state announced last: unused | used
+	tAnn      uint64             // virtual instant of that announcement
 	hadDup    bool
 	tDup      uint64
 }
@@ -80,6 +89,7 @@ func TestVerifC10Lifetime(t *testing.T) {
 	rng := kit.Rand("c10-lifetime")
 
 	// run executes one sequence on fresh registrations (fresh secrets), then forgets them
+	rm.IngestWorkerCount = 2
 	run := func(fam string, regs []*c10LReg, ops []string) {
 		nseq++
 		var vt uint64
@@ -98,12 +108,28 @@ func TestVerifC10Lifetime(t *testing.T) {
 		}
 		// published since the last Reset -> "M" records at the current virtual instant, and the driver's notes on
 		// which state was announced last (used only for the window statistics and the signature, never for a verdict)
-		took := func(r *c10LReg, redelivery bool) {
+		took := func(r *c10LReg, redelivery, stale bool) {
 			pubs := fr.Pubs()
 			fr.Reset()
+			var trackedObj *DecoyRegistration
+			if r.twin != nil {
+				trackedObj = rd.RegistrationExists(r.twin)
+			}
+			trackedNow := trackedObj != nil
 			for _, p := range pubs {
 				nextID++
-				x := c10Rec{T: "M", ID: nextID, Kind: "seq", Seq: nseq, Raw: hex.EncodeToString(p.Payload), Chan: p.Channel, Tr: r.cs.tr}
+				x := c10Rec{T: "M", ID: nextID, Kind: "seq", Seq: nseq, Raw: hex.EncodeToString(p.Payload), Chan: p.Channel, Tr: r.cs.tr,
+					Tracked: &trackedNow, Ops: strings.Join(done, " "), Case: r.cs.String(), Fam: fam}
+				if !trackedNow {
+					r.annUntr = true
+				} else {
+					// the registration this message is about, as the station holds it
+					x.EPhantom, x.EClient = hex.EncodeToString(trackedObj.PhantomIp), hex.EncodeToString(trackedObj.registrationAddr)
+					x.EPort = uint32(trackedObj.GetDstPort())
+				}
+				if stale {
+					x.Stale, r.staleMark = true, true
+				}
 				m := &pb.StationToDetector{}
 				if err := proto.Unmarshal(p.Payload, m); err != nil {
 					x.T = "U"
@@ -117,6 +143,9 @@ func TestVerifC10Lifetime(t *testing.T) {
 					switch *m.Operation {
 					case pb.StationOperations_New:
 						r.state, r.tAnn, r.hadDup = "unused", vt, false
+						if !stale {
+							r.staleMark = false
+						}
 					case pb.StationOperations_Update:
 						r.state, r.tAnn, r.hadDup = "used", vt, false
 					}
@@ -174,7 +203,7 @@ func TestVerifC10Lifetime(t *testing.T) {
 					}
 					nextID++
 					x := c10Rec{T: "L", ID: nextID, Seq: nseq, Fam: fam, Ops: strings.Join(done, " "), Reg: i, Holds: holds, State: r.state,
-						HadDup: r.hadDup, VT: vt, AgeAnn: vt - r.tAnn, Tr: r.cs.tr, Case: r.cs.String(),
+						HadDup: r.hadDup, AnnUntracked: r.annUntr, Stale: r.staleMark, VT: vt, AgeAnn: vt - r.tAnn, Tr: r.cs.tr, Case: r.cs.String(),
 						EPhantom: hex.EncodeToString(obj.PhantomIp), EClient: hex.EncodeToString(obj.registrationAddr),
 						EPort: uint32(obj.GetDstPort()), TrProto: int32(c10TrProto[r.cs.tr]), ELife: life,
 						PClass: c10ClassOfIP(obj.PhantomIp), CClass: r.cs.cclass}
@@ -197,6 +226,25 @@ func TestVerifC10Lifetime(t *testing.T) {
 				r := regs[int(op[1]-'0')]
 				fr.Reset()
 				switch op[0] {
+				case 'G':
+					// what a transport's WrapConnection does: the registrations on the connection's destination
+					r.held = nil
+					if cur := current(r); cur != nil {
+						for _, g := range rm.GetRegistrations(cur.PhantomIp) {
+							if g == cur {
+								r.held = cur
+							}
+						}
+					}
+				case 'H':
+					// the handler goes on with the object it matched, however long ago that was
+					stale := false
+					if r.held != nil {
+						cur := current(r)
+						stale = cur != nil && cur != r.held
+						rm.MarkActive(r.held)
+					}
+					took(r, false, stale)
 				case 'M':
 					if cur := current(r); cur != nil {
 						rd.m.RLock()
@@ -206,7 +254,7 @@ func TestVerifC10Lifetime(t *testing.T) {
 							rm.MarkActive(cur)
 						}
 					}
-					took(r, false)
+					took(r, false, false)
 				case 'D', 'O', 'S':
 					d := r.cs
 					switch op[0] {
@@ -236,10 +284,92 @@ func TestVerifC10Lifetime(t *testing.T) {
 					if current(r) != nil {
 						r.delivered = true
 					}
-					took(r, was)
+					took(r, was, false)
 				}
 			}
 		}
+		// ---- the station shuts down in whatever state the sequence left it (cmd/application/main.go: cancel(),
+		// wg.Wait(), then the deferred Cleanup()); the Clear must reach the detector and empty its map
+		nreg, _ := rm.VerifTotals()
+		nvalid := 0
+		rd.m.RLock()
+		for _, byID := range rd.decoys {
+			for _, g := range byID {
+				if g.Valid {
+					nvalid++
+				}
+			}
+		}
+		rd.m.RUnlock()
+		registry := "has-valid"
+		switch {
+		case nreg == 0:
+			registry = "empty"
+		case nvalid == 0:
+			registry = "only-unvalidated"
+		}
+		if ops[len(ops)-1] == "L" {
+			registry += ",swept"
+		} else {
+			registry += ",unswept"
+		}
+		// the ingest machinery is started and stopped around the shutdown for every random sequence and every 8th
+		// enumerated one (it costs more than the rest of a short sequence); the others call Cleanup() on the idle manager
+		stopped := make(chan struct{})
+		how := "Cleanup()"
+		if fam == "rand" || nseq%8 == 0 {
+			how = "HandleRegUpdates(ctx) running, cancel(), wg.Wait(), Cleanup()"
+			ctx, cancel := context.WithCancel(context.Background())
+			var wg sync.WaitGroup
+			wg.Add(1)
+			go rm.HandleRegUpdates(ctx, make(chan interface{}), &wg)
+			cancel()
+			go func() { wg.Wait(); close(stopped) }()
+			rec.Count("shutdowns_with_ingest_lifecycle", 1)
+		} else {
+			close(stopped)
+		}
+		tm := time.NewTimer(60 * time.Second)
+		select {
+		case <-stopped:
+			tm.Stop()
+			fr.Reset()
+			rm.Cleanup()
+			pubs := fr.Pubs()
+			fr.Reset()
+			desc := fmt.Sprintf("seq#%d %s [%s] then %s; registry: %d tracked, %d valid", nseq, fam, strings.Join(ops, " "), how, nreg, nvalid)
+			if len(pubs) == 0 {
+				nextID++
+				emit(&c10Rec{T: "P", ID: nextID, Kind: "seq-clear", Seq: nseq, Fam: fam, Ops: strings.Join(ops, " "), Case: desc, Registry: registry, VT: vt})
+				rec.Count("shutdowns_without_any_publication", 1)
+			}
+			for _, p := range pubs {
+				nextID++
+				x := c10Rec{T: "M", ID: nextID, Kind: "seq-clear", Seq: nseq, Fam: fam, Ops: strings.Join(ops, " "), Case: desc, Registry: registry,
+					Raw: hex.EncodeToString(p.Payload), Chan: p.Channel, VT: vt}
+				m := &pb.StationToDetector{}
+				if err := proto.Unmarshal(p.Payload, m); err != nil {
+					x.T = "U"
+					emit(&x)
+					continue
+				}
+				x.Phantom, x.Client, x.Timeout, x.DPort, x.SPort = m.PhantomIp, m.ClientIp, m.TimeoutNs, m.DstPort, m.SrcPort
+				if m.Operation != nil {
+					v := int32(*m.Operation)
+					x.Op = &v
+				}
+				if m.Proto != nil {
+					v := int32(*m.Proto)
+					x.Proto = &v
+				}
+				emit(&x)
+			}
+			rec.Count("shutdowns", 1)
+			rec.Count("shutdowns_registry_"+registry, 1)
+		case <-tm.C:
+			rec.Inconclusive("HandleRegUpdates did not return within 60 s after cancel; the shutdown of this sequence was not observed", nseq)
+		}
+
 		// forget everything: older than any lifetime, then the real sweep
 		rm.VerifBackdate(100 * time.Hour)
 		rm.RemoveOldRegistrations()
@@ -274,8 +404,14 @@ func TestVerifC10Lifetime(t *testing.T) {
 			enum(alpha, k, append(cur, a), f)
 		}
 	}
-	alpha1 := []string{"D0", "O0", "S0", "M0", "t4m", "t7m", "t4h", "L"}
-	alpha2 := append(append([]string{}, alpha1...), "D1", "O1", "S1", "M1")
+	// re-delivery from another source (S) differs from D only in a field the duplicate path does not read: it is
+	// enumerated in the thorough tier and drawn in the random sequences of both tiers
+	alpha1 := []string{"D0", "O0", "M0", "G0", "H0", "t4m", "t7m", "t4h", "L"}
+	alpha2 := append(append([]string{}, alpha1...), "D1", "O1", "M1", "G1", "H1")
+	if kit.Thorough() {
+		alpha1 = append(alpha1, "S0")
+		alpha2 = append(alpha2, "S0", "S1")
+	}
 	k1, k2 := kit.Tier(4, 5), kit.Tier(3, 4)
 	enum(alpha1, k1, nil, func(mid []string) {
 		if len(mid) > 0 && mid[len(mid)-1] == "L" {
@@ -283,8 +419,12 @@ func TestVerifC10Lifetime(t *testing.T) {
 		}
 		ops := append(append([]string{"D0"}, mid...), "L")
 		run("exh1", exhRegs()[:1], ops)
+		if len(mid) > 0 && strings.HasPrefix(mid[len(mid)-1], "t") {
+			// the same history, but the station shuts down before its sweep has run
+			run("exh1", exhRegs()[:1], append([]string{"D0"}, mid...))
+		}
 	})
-	rec.Exhaustive(fmt.Sprintf("one registration: D0 w L for every word w of length <= %d over {D0 O0 S0 M0 t4m t7m t4h L}", k1))
+	rec.Exhaustive(fmt.Sprintf("one registration: D0 w L for every word w of length <= %d over {%s}, then the shutdown; and D0 w + shutdown (no sweep) for every such w that ends with a time step", k1, strings.Join(alpha1, " ")))
 	enum(alpha2, k2, nil, func(mid []string) {
 		if len(mid) > 0 && mid[len(mid)-1] == "L" {
 			return
@@ -301,7 +441,22 @@ func TestVerifC10Lifetime(t *testing.T) {
 		ops := append(append([]string{"D0"}, mid...), "L")
 		run("exh2", exhRegs(), ops)
 	})
-	rec.Exhaustive(fmt.Sprintf("two registrations (same secret and phantom, min and prefix): D0 w L for every word w of length <= %d that touches the second one", k2))
+	rec.Exhaustive(fmt.Sprintf("two registrations (same secret and phantom, min and prefix): D0 w L + shutdown for every word w of length <= %d over {%s} that touches the second one", k2, strings.Join(alpha2, " ")))
+
+	// scripted: the shortest histories of the situations this monitor exists for, so that each is executed at every
+	// seed and tier whatever the bounds above are
+	for _, sc := range []string{
+		"D0 t4m D0 t7m L",             // re-delivery, then a lookup between the two lifetimes (unused)
+		"D0 M0 t4h D0 t4h L",          // the same for a used registration
+		"D0 t4h M0 t4h L",             // first use late in life: the registry is empty at shutdown, the detector still diverts
+		"D0 G0 t4h L H0 L",            // a handler's MarkActive on an object the sweep has removed
+		"D0 G0 t4h H0 L",              // ... on one that is overdue but not yet swept
+		"D0 G0 t4h L D0 H0 t4m t7m L", // ... removed and registered again by the same client
+		"D0 G0 t4h L O0 H0 t4m t7m L", // ... removed and registered again from another client address
+		"D0 G0 t4h L O0 H0 t4m t7m",   // the same, shutting down before the sweep
+	} {
+		run("script", exhRegs()[:1], strings.Fields(sc))
+	}
 
 	// seeded random: 1-3 generated registrations (any transport, family, generation, override), longer sequences, more steps
 	steps := []string{"t1m", "t4m", "t7m", "t10m", "t11m", "t3h", "t4h", "t6h", "t6h1m"}
@@ -315,6 +470,9 @@ func TestVerifC10Lifetime(t *testing.T) {
 		if nr > 1 && rng.Intn(3) == 0 { // same secret, another transport
 			regs[1].cs.secret = regs[0].cs.secret
 		}
+		if nr > 1 && rng.Intn(6) == 0 { // tracked but never validated: the covert address is malformed
+			regs[nr-1].cs.covert = "no port here"
+		}
 		n := 6 + rng.Intn(11)
 		ops := []string{"D0"}
 		for len(ops) < n {
@@ -324,10 +482,12 @@ func TestVerifC10Lifetime(t *testing.T) {
 			case k < 50:
 				ops = append(ops, "L")
 			default:
-				ops = append(ops, fmt.Sprintf("%c%d", "DOSM"[rng.Intn(4)], rng.Intn(nr)))
+				ops = append(ops, fmt.Sprintf("%c%d", "DOSMGH"[rng.Intn(6)], rng.Intn(nr)))
 			}
 		}
-		ops = append(ops, "L")
+		if rng.Intn(4) != 0 {
+			ops = append(ops, "L")
+		}
 		run("rand", regs, ops)
 	}
 	rec.Note(fmt.Sprintf("records in %s; the detector's table is the detector's own code in the orchestrator's shim", filepath.Base(outPath)))
